@@ -125,16 +125,19 @@ __CPROVER_ensures(xv_polled ==> (xv_poll_fd >= 0 && xv_poll_events == POLLIN && 
 /* ---- other modules (ASSUMED): ghost counters and last-call records -------------------------------------------------- */
 
 /* tcp_attr.c: applies the options to fd; 0, or -1 with the errno of the option that failed.  Begins an attempt (log). */
+#define XV_TRACK_OF(opts) ((struct track *)((char *)(opts) - offsetof(struct track, tcp_opts)))
 int tcp_opts_effectuate(struct tcp_opts *opts, int fd)
 __CPROVER_requires(XV_FD_OURS(fd) && __CPROVER_r_ok(opts, sizeof(*opts)))
+/* the options are the snapshot held in a struct track (that track is the one the attempt log follows) */
+__CPROVER_requires(__CPROVER_POINTER_OFFSET(opts) == offsetof(struct track, tcp_opts) && __CPROVER_OBJECT_SIZE(opts) == sizeof(struct track))
 __CPROVER_assigns(xv_errno, xv_eff, xv_pre, xv_fail, xv_arow)
 __CPROVER_ensures(__CPROVER_return_value == 0 || (__CPROVER_return_value == -1 && XV_ERRNO_OK(xv_errno)))
 __CPROVER_ensures(xv_eff_n == __CPROVER_old(xv_eff_n) + 1 && xv_eff_fd == fd && xv_eff_rc == __CPROVER_return_value && xv_eff_opts == (const void *)opts)
-__CPROVER_ensures(!xv_tcn_top && xv_pre_bind_fd == -1 && xv_pre_eff_fd == ((__CPROVER_return_value == 0 && opts == &XT->tcp_opts) ? fd : -1))
+__CPROVER_ensures(xv_trk == (void *)XV_TRACK_OF(opts) && !xv_tcn_top && xv_pre_bind_fd == -1 && xv_pre_eff_fd == (__CPROVER_return_value == 0 ? fd : -1))
 __CPROVER_ensures(XV_UPD(xv_fail_n, __CPROVER_return_value < 0, __CPROVER_old(xv_fail_n) + 1) && XV_UPD(xv_fail_errno, __CPROVER_return_value < 0, xv_errno))
-__CPROVER_ensures(XV_UPD(xv_att_begun, XT->ip_idx == xv_ai, __CPROVER_old(xv_att_begun) + 1))
-__CPROVER_ensures(XV_UPD(xv_att_failed, XT->ip_idx == xv_ai && __CPROVER_return_value < 0, __CPROVER_old(xv_att_failed) + 1))
-__CPROVER_ensures(XV_UPD(xv_att_errno, XT->ip_idx == xv_ai && __CPROVER_return_value < 0, xv_errno))
+__CPROVER_ensures(XV_UPD(xv_att_begun, XV_TRACK_OF(opts)->ip_idx == xv_ai, __CPROVER_old(xv_att_begun) + 1))
+__CPROVER_ensures(XV_UPD(xv_att_failed, XV_TRACK_OF(opts)->ip_idx == xv_ai && __CPROVER_return_value < 0, __CPROVER_old(xv_att_failed) + 1))
+__CPROVER_ensures(XV_UPD(xv_att_errno, XV_TRACK_OF(opts)->ip_idx == xv_ai && __CPROVER_return_value < 0, xv_errno))
 __CPROVER_ensures(XV_SAME(xv_att_conn) && XV_SAME(xv_att_conn_rc) && XV_SAME(xv_att_conn_errno) && XV_SAME(xv_att_conn_fd) && XV_SAME(xv_att_conn_src))
 ;
 /* common_tp.c: builds a sockaddr_in / sockaddr_in6 (aborts on any other family) */
@@ -145,6 +148,7 @@ __CPROVER_ensures(sockaddr->sa_family == xcm_ip->family)
 __CPROVER_ensures(xv_sa_src == (const void *)xcm_ip && xv_sa_dst == (const void *)sockaddr && xv_sa_port == port && xv_sa_scope == scope)
 ;
 #define XV_KC_BIND_SAME (XV_SAME(xv_kc.bind_calls) && XV_SAME(xv_kc.bind_ok_calls) && XV_SAME(xv_kc.bind_fd))
+#define XV_EST_SAME (XV_SAME(xv_est_n) && XV_SAME(xv_est_fd) && XV_SAME(xv_est_rc) && XV_SAME(xv_est_errno))
 #define XV_XP_REG_SAME (XV_SAME(xv_reg_fd) && XV_SAME(xv_reg_event) && XV_SAME(xv_reg_id))
 #define XV_TM_SCHED_SAME (XV_SAME(xv_sched_id) && XV_SAME(xv_sched_timeout) && XV_SAME(xv_sched_mgr))
 #define XV_TM_EXP_SAME (XV_SAME(xv_expired_ret) && XV_SAME(xv_expired_n))
@@ -210,8 +214,9 @@ __CPROVER_ensures(xv_est_n == __CPROVER_old(xv_est_n) + 1 && xv_est_fd == fd && 
 #define TRK_CUR_OK(t) ((t)->ip_idx >= 0 && TRK_SUPP(t, TRK_FAM(t, (t)->ip_idx)))
 #define TRK_CURFD(t) (TRK_FAM(t, (t)->ip_idx) == AF_INET ? (t)->fd4 : (t)->fd6)
 #define TRK_AI_IN(t) (xv_ai >= 0 && xv_ai < (t)->num_remote_ips)
-#define TRK_GHOST_OK(t) (XV_DT_CNT_OK(xv_regs) && XV_DT_CNT_OK(xv_timers) && xv_regs < XV_DT_CNT_MAX - 2 && xv_timers < XV_DT_CNT_MAX - 2 && \
-                         xv_pre_eff_fd == -1 && xv_pre_bind_fd == -1)
+#define TRK_GHOST_OK_S(slack) (XV_DT_CNT_OK(xv_regs) && XV_DT_CNT_OK(xv_timers) && xv_regs < XV_DT_CNT_MAX - (slack) && xv_timers < XV_DT_CNT_MAX - (slack) && \
+                               xv_pre_eff_fd == -1 && xv_pre_bind_fd == -1)
+#define TRK_GHOST_OK(t) TRK_GHOST_OK_S(2)
 #define XV_FK_SAME_TC (xv_fdt.e[xv_fk].open == __CPROVER_old(xv_fdt.e[xv_fk].open) && xv_fdt.e[xv_fk].nonblock == __CPROVER_old(xv_fdt.e[xv_fk].nonblock))
 /* no descriptor opened, closed or altered */
 #define TRK_FDT_SAME (XV_FK_SAME_TC && XV_SAME(xv_open_cnt) && XV_SAME(xv_close_calls) && XV_SAME(xv_socket_calls))
@@ -220,11 +225,11 @@ __CPROVER_ensures(xv_est_n == __CPROVER_old(xv_est_n) + 1 && xv_est_fd == fd && 
 #define TRK_IPS_FRESH(t) (__CPROVER_is_fresh((t)->remote_ips, TRK_IPS_BYTES(t)))
 #define TRK_LOCAL_FRESH(t) ((t)->local_ip == NULL || __CPROVER_is_fresh((t)->local_ip, sizeof(struct xcm_addr_ip)))
 #define TRK_REQUIRES_SHAPE(t) (TRK_FAMS_OK(t) && TRK_FDS_OK(t) && TRK_IDX_OK(t) && TRK_LOCAL_OK(t) && (t)->timer_mgr != NULL && (t)->xpoll != NULL && \
-                               xv_trk == (void *)(t) && xv_fk >= 0 && xv_fk < XV_NFD)
+                               xv_fk >= 0 && xv_fk < XV_NFD)
 #define TRK_REQUIRES_REST(t) (TRK_REQUIRES_SHAPE(t) && TRK_GHOST_OK(t))
 
 #define TRK_ASSIGNS(t) (t)->ip_idx, (t)->state, (t)->badness_reason, (t)->fd_reg_id, (t)->timer_id
-#define TCN_GHOST_ASSIGNS xv_errno, xv_tc
+#define TCN_GHOST_ASSIGNS xv_errno, xv_tc.att
 
 #define XV_AROW_SAME (XV_SAME(xv_att_begun) && XV_SAME(xv_att_failed) && XV_SAME(xv_att_conn) && XV_SAME(xv_att_errno) && XV_SAME(xv_att_conn_rc) && \
                       XV_SAME(xv_att_conn_errno) && XV_SAME(xv_att_conn_fd) && XV_SAME(xv_att_conn_src))
@@ -286,7 +291,7 @@ __CPROVER_requires(track->state == track_state_connecting && track->fd_reg_id ==
  * recursive calls are checked against, and replaced by, the general contract.  Jobs that replace track_connect_next do not
  * define XV_TCN_I0: they use the general contract, which is what the variants together establish (induction on the number
  * of addresses left). */
-__CPROVER_requires(xv_tcn_top ==> (track->ip_idx >= XV_TCN_I0 && track->ip_idx <= XV_TCN_I1))
+__CPROVER_requires(xv_tcn_top ==> track->ip_idx == XV_TCN_I0)
 #endif
 __CPROVER_assigns(TRK_ASSIGNS(track), TCN_GHOST_ASSIGNS)
 /* PO[C13] track_connect_next.outcome */
@@ -311,6 +316,8 @@ __CPROVER_ensures(TCN_ABORTED(track))
 __CPROVER_ensures(TCN_WAKEUP(track))
 /* PO[C08] track_connect_next.resources */
 __CPROVER_ensures(TCN_RESOURCES(track, __CPROVER_old(xv_regs), __CPROVER_old(xv_timers)))
+/* frame inside the ghost object: no timer is polled, no SO_ERROR read */
+__CPROVER_ensures(XV_TM_EXP_SAME && XV_EST_SAME)
 ;
 
 #define XV_CONN_ATT_SAME (XV_SAME(xv_conn_n) && XV_SAME(xv_conn_idx) && XV_SAME(xv_conn_fd) && XV_SAME(xv_conn_rc) && XV_SAME(xv_conn_errno) && \
@@ -333,6 +340,195 @@ __CPROVER_ensures(xv_kc.connect_calls == __CPROVER_old(xv_kc.connect_calls) + 1 
                   xv_kc.connect_ok_calls - __CPROVER_old(xv_kc.connect_ok_calls) <= 1u && XV_KC_BIND_SAME)
 /* no attempt is made here */
 __CPROVER_ensures(XV_CONN_ATT_SAME && XV_XP_REG_SAME && XV_TM_SCHED_SAME && XV_TM_EXP_SAME)
+;
+
+
+/* ---- track_process_connecting -------------------------------------------------------------------------------------- */
+/* what the attempt in progress turned out to be */
+#define TPC_TIMEDOUT (xv_expired_ret)
+#define TPC_SOERR (!xv_expired_ret && xv_est_rc < 0 && xv_est_errno != EINPROGRESS)
+#define TPC_PENDING (!xv_expired_ret && xv_est_rc < 0 && xv_est_errno == EINPROGRESS)
+#define TPC_ESTABLISHED (!xv_expired_ret && xv_est_rc == 0)
+#define TPC_MOVED_ON (TPC_TIMEDOUT || TPC_SOERR)
+#define TRK_CONNECTING_OK(t) ((t)->state == track_state_connecting && TRK_CUR_OK(t) && (t)->fd_reg_id >= 0 && xv_regs > 0 && (t)->timer_id >= 0 && xv_timers > 0)
+/* the track is left exactly as it was (nothing logged, registered, scheduled, cancelled) */
+#define TRK_UNCHANGED(t) (XV_SAME((t)->state) && TRK_UNCHANGED_BUT_STATE(t))
+#define TRK_UNCHANGED_BUT_STATE(t) (XV_SAME((t)->ip_idx) && XV_SAME((t)->fd_reg_id) && XV_SAME((t)->timer_id) && XV_SAME((t)->badness_reason) && \
+                          XV_SAME(xv_regs) && XV_SAME(xv_timers) && XV_CONN_ATT_SAME && XV_SAME(xv_disc_n) && XV_SAME(xv_fail_n) && XV_SAME(xv_fail_errno) && XV_AROW_SAME && \
+                          XV_SAME(xv_eff_n) && XV_SAME(xv_kc.bind_calls) && XV_SAME(xv_kc.connect_calls) && XV_SAME(xv_pre_eff_fd) && XV_SAME(xv_pre_bind_fd))
+static void track_process_connecting(struct track *track)
+__CPROVER_requires(TRK_FRESH(track) && TRK_NUM_OK(track))
+__CPROVER_requires(TRK_IPS_FRESH(track))
+__CPROVER_requires(TRK_LOCAL_FRESH(track))
+__CPROVER_requires(TRK_REQUIRES_SHAPE(track) && TRK_GHOST_OK_S(4) && TRK_CONNECTING_OK(track))
+__CPROVER_assigns(TRK_ASSIGNS(track), TCN_GHOST_ASSIGNS)
+__CPROVER_ensures(TCN_STATE(track) && xv_expired_n == __CPROVER_old(xv_expired_n) + 1)
+/* the connect timer is looked at first; SO_ERROR of the descriptor of the current address only if it has not expired */
+__CPROVER_ensures(TPC_TIMEDOUT ? XV_SAME(xv_est_n) : (xv_est_n == __CPROVER_old(xv_est_n) + 1 && (!TPC_MOVED_ON ==> xv_est_fd == TRK_CURFD(track)) && \
+                                                    (xv_est_rc == 0 || (xv_est_rc == -1 && XV_ERRNO_OK(xv_est_errno)))))
+/* PO[C13] track_process_connecting.still_in_progress: EINPROGRESS and timer running: nothing happens */
+__CPROVER_ensures(TPC_PENDING ==> TRK_UNCHANGED(track))
+/* PO[C13] track_process_connecting.established: SO_ERROR 0: connected, on the address that was being tried; its descriptor stays registered */
+__CPROVER_ensures(TPC_ESTABLISHED ==> (track->state == track_state_connected && TRK_UNCHANGED_BUT_STATE(track)))
+/* PO[C13] track_process_connecting.timeout_is_ETIMEDOUT_and_moves_on: the attempt is given up with ETIMEDOUT as its errno and the walk continues behind it */
+__CPROVER_ensures(TPC_TIMEDOUT ==> (TCN_IDX(track, __CPROVER_old(track->ip_idx)) && TCN_REASON(track, ETIMEDOUT)))
+/* PO[C13] track_process_connecting.so_error_is_its_errno_and_moves_on: SO_ERROR e (not EINPROGRESS): e is the attempt's errno and the walk continues behind it */
+__CPROVER_ensures(TPC_SOERR ==> (TCN_IDX(track, __CPROVER_old(track->ip_idx)) && TCN_REASON(track, xv_est_errno) && XV_ERRNO_OK(xv_est_errno)))
+/* PO[C13] track_process_connecting.walk_continues_like_connect_next: behind the abandoned address the contract of track_connect_next holds */
+__CPROVER_ensures(TPC_MOVED_ON ==> (TCN_SKIPPED(track, __CPROVER_old(track->ip_idx)) && TCN_UNTOUCHED(track, __CPROVER_old(track->ip_idx)) && \
+                                   TCN_CURRENT(track, __CPROVER_old(track->ip_idx)) && TCN_BOUNDED(track, __CPROVER_old(track->ip_idx)) && TCN_ORDER(track)))
+/* PO[C13,C08] track_process_connecting.abandoned_attempt_dissolved: the abandoned attempt and every later failed one is dissolved (connect(AF_UNSPEC)) */
+__CPROVER_ensures(TPC_MOVED_ON ==> (xv_disc_n - __CPROVER_old(xv_disc_n) == 1u + (xv_conn_n - __CPROVER_old(xv_conn_n)) - (track->state != track_state_bad ? 1u : 0u)))
+/* PO[C04] track_process_connecting.in_progress_is_registered_and_timed */
+__CPROVER_ensures(TPC_MOVED_ON ==> TCN_WAKEUP(track))
+/* PO[C08] track_process_connecting.resources: the abandoned attempt's registration and timer are released before the next one takes its own */
+__CPROVER_ensures(TPC_MOVED_ON ==> TCN_RESOURCES(track, __CPROVER_old(xv_regs) - 1, __CPROVER_old(xv_timers) - 1))
+;
+
+/* ---- track_process_initial_delay ------------------------------------------------------------------------------------- */
+static void track_process_initial_delay(struct track *track)
+__CPROVER_requires(TRK_FRESH(track) && TRK_NUM_OK(track))
+__CPROVER_requires(TRK_IPS_FRESH(track))
+__CPROVER_requires(TRK_LOCAL_FRESH(track))
+__CPROVER_requires(TRK_REQUIRES_SHAPE(track) && TRK_GHOST_OK_S(4))
+__CPROVER_requires(track->state == track_state_initial_delay && track->fd_reg_id == -1 && track->timer_id >= 0 && xv_timers > 0)
+__CPROVER_assigns(TRK_ASSIGNS(track), TCN_GHOST_ASSIGNS)
+__CPROVER_ensures(xv_expired_n == __CPROVER_old(xv_expired_n) + 1)
+/* PO[C13] track_process_initial_delay.waits: until the head start has elapsed nothing is tried */
+__CPROVER_ensures(!xv_expired_ret ==> TRK_UNCHANGED(track))
+/* PO[C13] track_process_initial_delay.then_walks: afterwards the walk starts: the contract of track_connect_next from the index the track stood at */
+__CPROVER_ensures(xv_expired_ret ==> (TCN_STATE(track) && TCN_IDX(track, __CPROVER_old(track->ip_idx)) && TCN_REASON(track, __CPROVER_old(track->badness_reason)) && \
+                  TCN_SKIPPED(track, __CPROVER_old(track->ip_idx)) && TCN_UNTOUCHED(track, __CPROVER_old(track->ip_idx)) && TCN_CURRENT(track, __CPROVER_old(track->ip_idx)) && \
+                  TCN_BOUNDED(track, __CPROVER_old(track->ip_idx)) && TCN_ORDER(track) && TCN_ABORTED(track)))
+/* PO[C04] track_process_initial_delay.in_progress_is_registered_and_timed */
+__CPROVER_ensures(xv_expired_ret ==> TCN_WAKEUP(track))
+/* PO[C08] track_process_initial_delay.resources: the delay timer is released (acknowledged) before the first attempt arms its own */
+__CPROVER_ensures(xv_expired_ret ==> TCN_RESOURCES(track, __CPROVER_old(xv_regs), __CPROVER_old(xv_timers) - 1))
+;
+
+
+/* ---- what a track holds: conservation law of registrations and timers --------------------------------------------------- */
+#define TRK_HELD(x) ((x) >= 0 ? 1 : 0)
+/* everything the track has registered/scheduled and not released again is named by its fd_reg_id / timer_id */
+#define TRK_ACCOUNTED(t) (xv_regs - TRK_HELD((t)->fd_reg_id) == __CPROVER_old(xv_regs) - TRK_HELD(__CPROVER_old((t)->fd_reg_id)) && \
+                          xv_timers - TRK_HELD((t)->timer_id) == __CPROVER_old(xv_timers) - TRK_HELD(__CPROVER_old((t)->timer_id)))
+/* states in which track_get_connected_fd may be called (not: finished -- the descriptor has been handed over already) */
+#define TRK_ENTRY_STATE_OK(t) ( \
+    ((t)->state == track_state_initial_delay && (t)->fd_reg_id == -1 && (t)->timer_id >= 0 && xv_timers > 0) || \
+    TRK_CONNECTING_OK(t) || \
+    ((t)->state == track_state_connected && TRK_CUR_OK(t) && (t)->fd_reg_id >= 0 && xv_regs > 0 && ((t)->timer_id < 0 || xv_timers > 0)) || \
+    ((t)->state == track_state_bad && XV_ERRNO_OK((t)->badness_reason) && (t)->fd_reg_id == -1 && (t)->timer_id == -1))
+#define OPTS_EQ(a, b) ((a)->keepalive == (b)->keepalive && (a)->keepalive_time == (b)->keepalive_time && (a)->keepalive_interval == (b)->keepalive_interval && \
+                       (a)->keepalive_count == (b)->keepalive_count && (a)->user_timeout == (b)->user_timeout)
+/* badness_reason: 0 (no attempt has failed yet) or the errno of the last failed attempt */
+#define TRK_REASON_OK(t) ((t)->badness_reason == 0 || XV_ERRNO_OK((t)->badness_reason))
+#define TRK_IN_PROGRESS(t) ((t)->state == track_state_connecting || (t)->state == track_state_initial_delay)
+
+/* ---- track_get_connected_fd ---------------------------------------------------------------------------------------------- */
+static int track_get_connected_fd(struct track *track, int *fd, int64_t *scope, struct tcp_opts *tcp_opts)
+__CPROVER_requires(TRK_FRESH(track) && TRK_NUM_OK(track))
+__CPROVER_requires(TRK_IPS_FRESH(track))
+__CPROVER_requires(TRK_LOCAL_FRESH(track))
+__CPROVER_requires(TRK_REQUIRES_SHAPE(track) && TRK_GHOST_OK_S(8) && TRK_ENTRY_STATE_OK(track) && TRK_REASON_OK(track))
+__CPROVER_requires(__CPROVER_is_fresh(fd, sizeof(*fd)) && __CPROVER_is_fresh(scope, sizeof(*scope)) && __CPROVER_is_fresh(tcp_opts, sizeof(*tcp_opts)))
+__CPROVER_assigns(TRK_ASSIGNS(track), track->fd4, track->fd6, *fd, *scope, *tcp_opts, TCN_GHOST_ASSIGNS)
+__CPROVER_ensures((__CPROVER_return_value == 0 || __CPROVER_return_value == -1) && (TRK_IN_PROGRESS(track) || track->state == track_state_bad || track->state == track_state_finished))
+/* PO[C13] track_get_connected_fd.in_progress_is_EAGAIN */
+__CPROVER_ensures(TRK_IN_PROGRESS(track) ==> (__CPROVER_return_value == -1 && xv_errno == EAGAIN))
+/* PO[C13] track_get_connected_fd.exhausted_reports_errno_of_last_failed_attempt */
+__CPROVER_ensures(track->state == track_state_bad ==> (__CPROVER_return_value == -1 && xv_errno == track->badness_reason && XV_ERRNO_OK(xv_errno)))
+/* PO[C13] track_get_connected_fd.success_iff_connected */
+__CPROVER_ensures((__CPROVER_return_value == 0) == (track->state == track_state_finished))
+/* PO[C13,C08] track_get_connected_fd.hands_over_the_connected_descriptor: the descriptor of the address that connected, open, no longer registered, no longer the track's; scope and options snapshot with it */
+__CPROVER_ensures(__CPROVER_return_value == 0 ==> (TRK_IDX_OK(track) && track->ip_idx >= 0 && XV_FD_OURS(*fd) && xv_fdt.e[*fd].nonblock && track->fd_reg_id == -1 && OPTS_EQ(tcp_opts, &track->tcp_opts) && \
+        (TRK_FAM(track, track->ip_idx) == AF_INET ? (*fd == __CPROVER_old(track->fd4) && track->fd4 == -1 && XV_SAME(track->fd6) && *scope == -1) \
+                                                 : (*fd == __CPROVER_old(track->fd6) && track->fd6 == -1 && XV_SAME(track->fd4) && *scope == (track->scope < 0 ? 0 : track->scope)))))
+__CPROVER_ensures(__CPROVER_return_value == -1 ==> (XV_SAME(track->fd4) && XV_SAME(track->fd6)))
+/* PO[C08] track_get_connected_fd.accounted: registrations and timers are conserved; nothing is opened or closed */
+__CPROVER_ensures(TRK_ACCOUNTED(track) && TRK_FDT_SAME && xv_pre_eff_fd == -1 && xv_pre_bind_fd == -1)
+/* PO[C04] track_get_connected_fd.in_progress_is_registered_or_timed: an attempt in progress has its descriptor registered for EPOLLOUT and a timer; a delayed track its timer */
+__CPROVER_ensures((track->state == track_state_connecting ==> (track->fd_reg_id >= 0 && track->timer_id >= 0)) && (track->state == track_state_initial_delay ==> track->timer_id >= 0) && \
+                  (track->state == track_state_bad ==> (track->fd_reg_id == -1 && track->timer_id == -1)))
+;
+
+
+/* ---- timer_mgr.c, creation and destruction (ASSUMED).  A timer manager owns a timerfd (not in the ghost descriptor table: counted
+ * by xv_tmgrs) and its registration in the xpoll instance; destroying it destroys every timer it still has. */
+struct timer_mgr *timer_mgr_create(struct xpoll *xpoll, void *log_ref)
+__CPROVER_requires(xpoll != NULL && XV_DT_CNT_OK(xv_tmgrs) && XV_DT_CNT_OK(xv_regs))
+__CPROVER_assigns(xv_errno, xv_tmgrs, xv_xp)
+__CPROVER_ensures(__CPROVER_return_value == NULL || __CPROVER_is_fresh(__CPROVER_return_value, 1))
+__CPROVER_ensures(__CPROVER_return_value == NULL ? (XV_ERRNO_OK(xv_errno) && XV_SAME(xv_tmgrs) && XV_SAME(xv_regs)) \
+                                                 : (XV_SAME(xv_errno) && xv_tmgrs == __CPROVER_old(xv_tmgrs) + 1 && xv_regs == __CPROVER_old(xv_regs) + 1))
+;
+/* errno preserved (xpoll_fd_reg_del, ut_close, free); owner == false: the xpoll instance is not touched */
+void timer_mgr_destroy(struct timer_mgr *mgr, bool owner)
+__CPROVER_requires(mgr == NULL || (xv_tmgrs > 0 && (!owner || xv_regs > 0)))
+__CPROVER_assigns(xv_tmgrs, xv_xp, xv_tm)
+__CPROVER_ensures(mgr == NULL ? (XV_SAME(xv_tmgrs) && XV_SAME(xv_regs) && XV_SAME(xv_timers)) \
+                              : (xv_tmgrs == __CPROVER_old(xv_tmgrs) - 1 && xv_regs == __CPROVER_old(xv_regs) - (owner ? 1 : 0) && xv_timers == 0))
+;
+
+/* ---- track_destroy ----------------------------------------------------------------------------------------------------- */
+#ifdef XV_TD_JOB
+#define __CPROVER_ensures_td(x) __CPROVER_ensures(x)
+#else
+#define __CPROVER_ensures_td(x)
+#endif
+static void track_destroy(struct track *track, bool owner)
+__CPROVER_requires(track == NULL || (TRK_FRESH(track) && TRK_NUM_OK(track)))
+__CPROVER_requires(track == NULL || TRK_IPS_FRESH(track))
+__CPROVER_requires(track == NULL || (track->timer_mgr != NULL && track->xpoll != NULL && (track->fd_reg_id < 0 || xv_regs > 0) && (track->timer_id < 0 || xv_timers > 0) && \
+                                     xv_g_ips == (const void *)track->remote_ips))
+__CPROVER_assigns(xv_xp, xv_tm)
+__CPROVER_assigns(track != NULL: track->timer_id)
+__CPROVER_frees(track != NULL: track->remote_ips; track)
+/* PO[C08] track_destroy.owner_releases_registration_and_timer */
+__CPROVER_ensures((track != NULL && owner) ==> (xv_regs == __CPROVER_old(xv_regs) - TRK_HELD(__CPROVER_old(track->fd_reg_id)) && \
+                                                xv_timers == __CPROVER_old(xv_timers) - TRK_HELD(__CPROVER_old(track->timer_id))))
+/* PO[C08] track_destroy.cleanup_is_process_local: owner == false (xcm_cleanup in a forked child): no xpoll change, no timer change */
+__CPROVER_ensures((track == NULL || !owner) ==> (XV_SAME(xv_regs) && XV_SAME(xv_timers) && XV_SAME(xv_del_id)))
+/* PO[C08] track_destroy.frees_its_memory */
+__CPROVER_ensures_td(track != NULL ==> (__CPROVER_was_freed(track) && __CPROVER_was_freed(xv_g_ips)))
+;
+
+/* ---- track_create -------------------------------------------------------------------------------------------------------- */
+#define IPS_FAMS_OK(ips, n) __CPROVER_forall { int xv_q; (0 <= xv_q && xv_q < TRK_MAX_IPS) ==> (xv_q < (n) ==> FAM_OK((ips)[xv_q].family)) }
+#define TCR_U8(p) ((const uint8_t *)(p))
+static struct track *track_create(int fd4, int fd6, const struct xcm_addr_ip *local_ip, uint16_t local_port, int64_t scope, double tcp_connect_timeout, \
+                                  const struct tcp_opts *tcp_opts, const struct xcm_addr_ip *remote_ips, int num_remote_ips, uint16_t remote_port, \
+                                  double initial_delay, struct timer_mgr *timer_mgr, struct xpoll *xpoll, void *log_ref)
+__CPROVER_requires(num_remote_ips >= 1 && num_remote_ips <= TRK_MAX_IPS && __CPROVER_r_ok(remote_ips, sizeof(struct xcm_addr_ip) * num_remote_ips) && \
+                   __CPROVER_r_ok(tcp_opts, sizeof(*tcp_opts)) && (local_ip == NULL || __CPROVER_r_ok(local_ip, sizeof(*local_ip))))
+__CPROVER_requires(IPS_FAMS_OK(remote_ips, num_remote_ips) && (local_ip == NULL || FAM_OK(local_ip->family)))
+__CPROVER_requires(TRK_FD_OK(fd4) && TRK_FD_OK(fd6) && (fd4 >= 0 || fd6 >= 0) && fd4 != fd6 && timer_mgr != NULL && xpoll != NULL && TRK_GHOST_OK_S(4) && \
+                   xv_fk >= 0 && xv_fk < XV_NFD && xv_mc < sizeof(struct xcm_addr_ip) * TRK_MAX_IPS)
+__CPROVER_assigns(TCN_GHOST_ASSIGNS)
+__CPROVER_ensures(__CPROVER_is_fresh(__CPROVER_return_value, sizeof(struct track)))
+/* PO[C13] track_create.remembers_what_it_was_given: descriptors, local address (borrowed), scope, timeout, options SNAPSHOT, port, delay, timer manager, xpoll */
+__CPROVER_ensures(__CPROVER_return_value->fd4 == fd4 && __CPROVER_return_value->fd6 == fd6 && __CPROVER_return_value->local_ip == local_ip && \
+                  __CPROVER_return_value->local_port == local_port && __CPROVER_return_value->scope == scope && __CPROVER_return_value->tcp_connect_timeout == tcp_connect_timeout && \
+                  OPTS_EQ(&__CPROVER_return_value->tcp_opts, tcp_opts) && __CPROVER_return_value->remote_port == remote_port && \
+                  __CPROVER_return_value->timer_mgr == timer_mgr && __CPROVER_return_value->xpoll == xpoll && __CPROVER_return_value->log_ref == log_ref)
+/* PO[C13] track_create.private_copy_of_exactly_the_addresses_given: num_remote_ips entries, byte for byte (xv_mc: any offset), in memory of its own */
+__CPROVER_ensures(__CPROVER_return_value->num_remote_ips == num_remote_ips && \
+                  __CPROVER_is_fresh(__CPROVER_return_value->remote_ips, sizeof(struct xcm_addr_ip) * num_remote_ips) && \
+                  (xv_mc < sizeof(struct xcm_addr_ip) * num_remote_ips ==> TCR_U8(__CPROVER_return_value->remote_ips)[xv_mc] == TCR_U8(remote_ips)[xv_mc]))
+/* PO[C13,C04] track_create.delayed_track_only_arms_a_timer: initial_delay > 0: nothing is tried yet; a timer with that delay is armed */
+__CPROVER_ensures(initial_delay > 0 ==> (__CPROVER_return_value->state == track_state_initial_delay && __CPROVER_return_value->ip_idx == -1 && \
+                  __CPROVER_return_value->fd_reg_id == -1 && __CPROVER_return_value->badness_reason == 0 && __CPROVER_return_value->timer_id >= 0 && \
+                  __CPROVER_return_value->timer_id == xv_sched_id && xv_sched_timeout == initial_delay && xv_sched_mgr == (const void *)timer_mgr && \
+                  xv_timers == __CPROVER_old(xv_timers) + 1 && XV_SAME(xv_regs) && XV_CONN_ATT_SAME && XV_SAME(xv_eff_n) && XV_SAME(xv_fail_n) && XV_AROW_SAME && \
+                  XV_SAME(xv_pre_eff_fd) && XV_SAME(xv_pre_bind_fd)))
+/* PO[C13] track_create.undelayed_track_walks_at_once: otherwise the walk starts from the head of the list: the contract of track_connect_next from index -1, no failure so far */
+__CPROVER_ensures(!(initial_delay > 0) ==> (TCN_STATE(__CPROVER_return_value) && TCN_IDX(__CPROVER_return_value, -1) && TCN_REASON(__CPROVER_return_value, 0) && \
+                  TCN_SKIPPED(__CPROVER_return_value, -1) && TCN_UNTOUCHED(__CPROVER_return_value, -1) && TCN_CURRENT(__CPROVER_return_value, -1) && \
+                  TCN_BOUNDED(__CPROVER_return_value, -1) && TCN_ORDER(__CPROVER_return_value) && TCN_ABORTED(__CPROVER_return_value)))
+/* PO[C04] track_create.in_progress_is_registered_and_timed */
+__CPROVER_ensures(!(initial_delay > 0) ==> TCN_WAKEUP(__CPROVER_return_value))
+/* PO[C08] track_create.resources */
+__CPROVER_ensures(!(initial_delay > 0) ==> TCN_RESOURCES(__CPROVER_return_value, __CPROVER_old(xv_regs), __CPROVER_old(xv_timers)))
+__CPROVER_ensures(TRK_FDT_SAME)
 ;
 
 #endif /* XV_DNSTC_TC */
